@@ -70,6 +70,7 @@ def run_recv(seed, stream, cfg, res=None, peer_extra=None):
     total_k = sum(int(v) for v in dict(cfg.get("gaps", {})).values())
     max_timeouts = int(cfg.get("max_timeouts", total_k + 2))
     obs = []
+    consumed_after = []
     bad = []
     timeouts = 0
     calls = 0
@@ -122,9 +123,10 @@ def run_recv(seed, stream, cfg, res=None, peer_extra=None):
                     break
                 calls += 1
                 obs.append(["ret", obs_value(v)])
+                consumed_after.append(sock_obj.consumed)
         peer = peers[0] if peers else None
         out = {
-            "obs": obs, "timeouts": timeouts, "bad_after_timeout": bad, "calls": calls,
+            "obs": obs, "consumed_after": consumed_after, "timeouts": timeouts, "bad_after_timeout": bad, "calls": calls,
             "wrote": peer.ws_bytes() if peer else b"",
             "wrote_events": [(f.opcode, f.payload, seq) for f, seq, _ in peer.frames] if peer else [],
             "maxbuf": w.net.max_bufsize, "world": w,
@@ -279,3 +281,46 @@ def writes_match(wrote_bytes, expected_writes):
             if f.opcode != R.OP_CLOSE:
                 return f"written frame #{i}: expected close, got op={f.opcode}"
     return None
+
+
+def check_model(res, out, frames, api, fire_cont, skip_utf8, end, ctx, clause_prefix=""):
+    """Compare a run with the receiver model; adds violations to res.  Returns (complete, expected)."""
+    exp, writes, complete = predict(frames, api, fire_cont, skip_utf8, end)
+    why = obs_matches(out["obs"], exp, complete, fire_cont)
+    if why:
+        res.violate(clause_prefix + _clause_for(out["obs"], exp), ctx, why)
+    if complete and api != "recv_frame":
+        why = writes_match(out["wrote"], writes)
+        if why:
+            res.violate(clause_prefix + "replies_differ_from_model", ctx, why)
+    if api == "recv_frame" and out["wrote"]:
+        res.violate(clause_prefix + "replies_differ_from_model", ctx, "recv_frame() must not write anything")
+    return complete, exp
+
+
+def _clause_for(actual, expected):
+    """Small finite vocabulary describing how the observation differs from the model."""
+    n = min(len(actual), len(expected))
+    i = 0
+    while i < n and _same(actual[i], expected[i]):
+        i += 1
+    e = expected[i] if i < len(expected) else None
+    a = actual[i] if i < len(actual) else None
+    if e is not None and e[0] == "exc" and e[1] in ("WebSocketProtocolException", "WebSocketPayloadException"):
+        if a is None or a[0] == "ret":
+            return "illegal_input_accepted"
+        if a[0] == "exc":
+            return "wrong_exception_for_illegal_input"
+    if a is not None and a[0] == "exc" and (e is None or e[0] == "ret"):
+        return "legal_input_rejected"
+    if a is not None and a[0] == "ret" and e is not None and e[0] == "ret":
+        return "wrong_value_delivered"
+    if a is None:
+        return "delivery_missing"
+    return "observation_differs"
+
+
+def _same(a, e):
+    if e[0] == "exc":
+        return a[0] == "exc" and (a[1] == e[1] or e[1] == "*reset*")
+    return a == e
